@@ -64,7 +64,9 @@ func (k *KDC) tcpLoop() {
 			c.SetReadDeadline(time.Now().Add(2 * time.Second))
 			hdr := make([]byte, 4)
 			var got []byte
-			if _, err := io.ReadFull(c, hdr); err == nil {
+			framed := false
+			if hn, err := io.ReadFull(c, hdr); err == nil {
+				framed = true
 				got = append(got, hdr...)
 				n := binary.BigEndian.Uint32(hdr)
 				if n < 1<<20 {
@@ -72,10 +74,16 @@ func (k *KDC) tcpLoop() {
 					m, _ := io.ReadFull(c, body)
 					got = append(got, body[:m]...)
 				}
+			} else {
+				got = append(got, hdr[:hn]...)
 			}
 			k.mu.Lock()
 			k.TCPGot[idx] = got
 			k.mu.Unlock()
+			if !framed {
+				// fewer than four bytes arrived: no KDC can frame a request from that, it keeps waiting
+				return
+			}
 			if k.Delay > 0 {
 				time.Sleep(k.Delay)
 			}
